@@ -374,8 +374,9 @@ def _lookup_keys(prog, cg, eff, chk, B7, order, cats, lo2, hi2):
             for w in inserts:
                 stored.setdefault(w.column, set()).update(
                     (x[1], x[2]) for x in vf.leaves(w.value) if x[0] == 'in')
-            lookups = [r for r in ip.reads if r[0] and r[0].lower() == table.lower() and r[3]]
-            for (t, outs, loc, where, rfunc) in lookups:
+            lookups = [r for r in ip.reads if r.table and r.table.lower() == table.lower() and r.where]
+            for rd in lookups:
+                t, outs, loc, where, rfunc = rd.table, rd.outs, rd.loc, rd.where, rd.func
                 wcols = {c.lower() for c in where}
                 # only lookups keyed by the row being added
                 keyed = {c for c, v in where.items() if any(x[0] == 'in' for x in vf.leaves(v))}
